@@ -235,6 +235,21 @@ def _tm_histories(sp, tmm, check_pus_crc, Service17Tm, c, stamp, src, want, wo, 
         obj.tm_data = src2
         eq(devs, f"hist.source_data_replaced.{tag}.pack", bytes(obj.pack()), want3)
         eq(devs, f"hist.source_data_replaced.{tag}.packet_len", obj.packet_len, len(want3))
+    # composed around a header whose length field is a placeholder: the documented setter recomputes it from the data it is given
+    ph = sp.SpacePacketHeader.unpack(want)
+    ph.data_len = 0
+    pobj = tmm.PusTm.from_composite_fields(ph, sec, b"")
+    pobj.tm_data = src2
+    eq(devs, "hist.placeholder_length_then_source_data_set.pack", bytes(pobj.pack()), want3)
+    # the application keeps ONE bytearray: grows it in place and hands the same object to the setter again
+    held = bytearray(src)
+    gobj = build_tm(tmm, c, stamp, held)
+    gobj.pack()
+    held.extend(b"\x5a\x5b\x5c")
+    gobj.tm_data = held
+    want4 = RP.pus_tm(c["apid"], c["seq"], c["service"], c["subservice"], c["msg_counter"], c["dest_id"], c["time_ref"], stamp, src + b"\x5a\x5b\x5c", ver=c["ver"])
+    eq(devs, "hist.same_buffer_grown_in_place_and_set_again.pack", bytes(gobj.pack()), want4)
+    eq(devs, "hist.same_buffer_grown_in_place_and_set_again.packet_len", gobj.packet_len, len(want4))
     # changed through the public header objects after packing / decoding; view before the next pack
     o_service, o_sub, o_seq, o_apid, o_cnt = (c["service"] + 1) % 256, (c["subservice"] + 3) % 256, (c["seq"] + 1) % 16384, (c["apid"] + 1) % 2048, (c["msg_counter"] + 1) % 65536
     want2 = RP.pus_tm(o_apid, o_seq, o_service, o_sub, o_cnt, c["dest_id"], c["time_ref"], stamp, src, ver=c["ver"])
